@@ -10,6 +10,9 @@
    result. That over-approximates (spurious counterexamples) and doubles the path count at
    every repr() - liquid builds f"{root!r} is undefined" on every undefined lookup. Optional
    short-circuits are never taken; the function is always executed.
+3. construction: under enforcement CrossHair replaces Cls(*a) by a manual constructor that
+   looks __init__ up on the INSTANCE; classes that override __getattribute__ (liquid's
+   StrictUndefined family) reject that lookup. Python looks __init__ up on the type; so do we.
 """
 from crosshair import core as _core
 from crosshair.libimpl import builtinslib as _bl
@@ -50,6 +53,22 @@ def _consider_shortcircuit(fn, sig, bound, subconditions, allow_interpretation):
     return _orig_consider(fn, sig, bound, subconditions, allow_interpretation)
 
 
+from crosshair import enforce as _enf
+
+
+def _manual_constructor(typ):
+    def manually_construct(*a, **kw):
+        obj = _enf.WithEnforcement(typ.__new__)(typ, *a, **kw)
+        with NoTracing():
+            if isinstance(obj, typ):
+                init = type(obj).__init__
+                with ResumedTracing():
+                    _enf.WithEnforcement(init)(obj, *a, **kw)
+        return obj
+    return manually_construct
+
+
 def apply():
+    _enf.manual_constructor = _manual_constructor
     _core._PATCH_REGISTRATIONS[_builtin_getattr] = _getattr
     _core.consider_shortcircuit = _consider_shortcircuit
